@@ -34,6 +34,18 @@ CLAIMED = {
  "C05": ("Lean 4 proof (refinement builder as a state machine, induction over call sequences; prefix theorems under an explicit law of the Unicode libraries that is probed every run) + differential correspondence with the Go implementation, small scopes enumerated",
          "Machine-checked for all builder call sequences on all receivers: type preserved; Range() reports exactly what was recorded; refinement only narrows and is exactly 'previous AND new constraint' under an exact number comparison (the code compares numbers by decimal text: that gap is a recorded finding with counterexample theorems, as are exclusive infinite bounds); contradictions are rejected; collapse to known values (null, point range, fixed length); refining a known value is an assertion. SafeKnownPrefix returns a byte prefix of the NFC form that ends no later than the last normalisation boundary for ANY delimiter table, hence is continuation-safe given the stated stability law of x/text (a structure field, probed ~29k times per run); the delimiter table is regenerated from the source.",
          "DESIGN.md §6 C05", "NFC and UAX#29 segmentation are the real libraries (oracle columns); ValueRange.Includes is diffed but has no theorem"),
+ "C06": ("Lean 4 proof (executable well-formedness predicate; preservation theorems for constructors, all 18 operation methods, marks, refinement builder, call protocol) + producer sweep of the real library judged by that same Lean predicate through the driver and by a public-accessor walk",
+         "PARTIAL. Machine-checked: the executable predicate WF (payload shape dictated by the type recursively, lengths and attribute lists matching, NFC via an oracle column, sets without marks/duplicates and in order, at most one non-empty marker layer, refinement kind matching the type, no optional annotation in a value's type) is established by every modelled constructor and preserved by all 18 operation methods, Mark/WithMarks/Unmark/UnmarkDeep, any builder chain, and Function.Call given well-formed callback results; every applicable accessor of a WF value succeeds. SetVal is proved under the lawfulness condition of the set rules, with the recorded hash-coherence finding as a counterexample theorem. NOT proved (judged on the real code only, ~100k values per quick run): results of convert, JSON/msgpack decoders, gocty, walk/transform and the stdlib functions.",
+         "DESIGN.md §6 C06", "capsule payloads are opaque; NFC is the real x/text library (oracle column)"),
+ "C13": ("Lean 4 proof (model of each function's Impl/Type callback as written = specification in list vocabulary) + differential correspondence with the real stdlib functions through Function.Call + independent Go reference",
+         "Machine-checked for all wholly known inputs of any size: element (l[i emod len] with exact error conditions), slice, chunklist, reverse, distinct, compact, sort, coalesce(list), zipmap, merge (map case), keys, values, lookup, contains, concat, flatten (set-free), range (progression, 1024 limit, direction rules), setproduct (the odometer enumerates the row-major product), set algebra = list-set algebra (assuming lawful set rules: C03), result types, and failure exactly outside the documented domain — with the two statements that are false of the code kept as recorded findings with counterexample theorems (range with a zero step that is not the cty.Zero singleton; merge of all-null objects).",
+         "DESIGN.md §6 C13", "convert/unify used inside setproduct, concat and the set functions are parameters (Env); hashing order of set members is an oracle table"),
+ "C16": ("Lean 4 proof (item-level model of cty/msgpack marshal/unmarshal incl. number route selection and the unknown-value extension; round trip by induction over values and types) + differential correspondence with the Go implementation through the harness' own msgpack byte reader/writer",
+         "PARTIAL. Machine-checked at item level (nil|bool|int|uint|float|str|bin|arr|map|ext): whole numbers in the int64 range travel as integers and decode exactly, exact float64 values travel as floats, everything else as the shortest decimal text; marked values (any depth) are rejected with an error and Marshal never panics; under explicit decidable hypotheses (Fits, SetsRebuild, conformance) Unmarshal(Marshal(v,t),t) succeeds, preserves the type, is unknown exactly where v is with a refinement that admits everything the original admitted (prefix cut, bounds kept), and equals v in every known part. The full statements that are false of the code are recorded findings with counterexample theorems (whole numbers beyond int64 at low precision, over-long bound text, type loss under partly dynamic constraints). Limits (256, 1024) are tied to the regenerated source facts.",
+         "DESIGN.md §6 C16", "byte-level msgpack lexing is outside the model (harness reader/writer cross-checked against the library every case); the decimal text path is a per-number hypothesis evaluated by the driver, not a theorem"),
+ "C20": ("Lean 4 proof (heap/aliasing semantics for the Go objects values are made of; write-set and ownership invariants by induction over all histories; generic interleaving theorem) + differential correspondence of aliasing signatures with the real code (fingerprints, len/cap/backing-array identity), purity repetitions, -race worker in the thorough tier",
+         "PARTIAL. Machine-checked over a model of 49 API calls and 18 caller actions: every step writes only its declared write set; no API call writes an object reachable from an existing value; accessor results are freshly allocated and caller-owned; hence for every history that respects the documented ownership transfers every value's fingerprint is stable (each excluded transfer — NumberVal(*big.Float), cty.Tuple([]Type), TupleElementTypes/AttributeTypes, PathSet.Add/List, the walk path buffer — proved necessary by a counterexample history replayed on the real code); Equals on objects/maps is independent of the visiting order; steps that read shared and write only thread-fresh addresses give every schedule the sequential results. NOT proved: that each real call's footprint is the model's write set (supported by correspondence of aliasing observations and by -race runs, which are not proofs), the Go memory model and scheduler.",
+         "DESIGN.md §6 C20", "refinements and capsules are opaque in the heap model (derived-value probes on the real code cover refinement copies); set algebra methods and Transform are repeat-tested only"),
 }
 NOT_YET = "machinery for this property is not built yet in this round (model slice, theorems and correspondence pending); see DESIGN.md §9 build order"
 
